@@ -3,12 +3,16 @@
 
    Vocabulary (Model.v / Spec.v):
      run S evs            the network state after the events evs (Fetch i j = router i processes router j's
-                          current advertisement with the modelled ribUpdate; NbrUp / NbrDead = neighbour entry
-                          created / declared dead; RouterUp / RouterDown)
+                          current advertisement with the modelled ribUpdate; Deliver i j adv = router i processes
+                          the advertisement adv as coming from j (stale, or arbitrary); NbrUp / NbrDead =
+                          neighbour entry created / declared dead; RouterUp / RouterDown)
      topo_of S            the directed graph "j is in i's neighbour table" over the live routers
      settled g            every neighbour-table entry names a live router (all losses have been detected)
-     nrounds g n evs      evs = n rounds followed by arbitrary further fetches; a round (is_round g) is any
-                          sequence of Fetch events in which every ordered adjacent pair occurs at least once
+     arounds g n S evs    from state S, evs = n asynchronous rounds followed by further transfers; a round
+                          (around) is any sequence of Fetch / Deliver events in which every ordered adjacent pair
+                          is served at least once and every delivered advertisement was the sender's advertisement
+                          in some state of that same round (it may be stale, but not older than the round)
+     nrounds g n evs      the synchronous special case: rounds of atomic Fetch events only (Spec.is_round)
      isdist g i d m       the hop distance from i to d in g is m;   maxdist g = the largest distance below INF
      converged S          for every router: its table (Rib.Entries: destination -> best cost, next hop) lists
                           exactly the destinations at distance m < INF, each with cost m and, as next hop, the
@@ -34,13 +38,14 @@ Theorem refresh_order_independent : forall cs cs' : list (node * N),
 Proof. exact (fun cs cs' Hnd P => conj (refresh_fold_order_independent cs cs' Hnd P) (refresh_fold_spec cs Hnd)). Qed.
 Print Assumptions refresh_order_independent.
 
-(* every history (any schedule, any sequence of losses and re-additions) leaves a well-formed state *)
+(* every history (any schedule, any sequence of losses and re-additions, and advertisements with ARBITRARY
+   contents delivered by Deliver events) leaves a well-formed state *)
 Theorem reachable_well_formed : forall hist, net_ok (run [] hist).
 Proof. exact (fun hist => run_ok hist [] net_ok_nil). Qed.
 Print Assumptions reachable_well_formed.
 
 (* no advertisement ever lists a destination whose best cost is at or above infinity:
-   every reachable state, every schedule, every fault sequence *)
+   every reachable state, every schedule, every fault sequence, whatever the neighbours sent *)
 Theorem advert_below_infinity : forall hist i ro,
   getr (run [] hist) i = Some ro -> adv_ok (advert (rrib ro)) = true.
 Proof. exact (fun hist i ro => advert_below_infinity_gen [] hist i ro net_ok_nil). Qed.
@@ -49,7 +54,7 @@ Print Assumptions advert_below_infinity.
 (* after n rounds from ANY well-formed state, every best-cost estimate is at least min(distance, n, INF);
    estimates for unreachable (or phantom) destinations are at least min(n, INF) *)
 Theorem dv_lower_bound : forall S n evs i ri d,
-  net_ok S -> settled (topo_of S) = true -> nrounds (topo_of S) n evs ->
+  net_ok S -> settled (topo_of S) = true -> arounds (topo_of S) n S evs ->
   getr (run S evs) i = Some ri ->
   (forall m, isdist (topo_of S) i d m -> N.min (N.min m (N.of_nat n)) INF <= b1 (rrib ri) d) /\
   ((forall m, ~ isdist (topo_of S) i d m) -> N.min (N.of_nat n) INF <= b1 (rrib ri) d).
@@ -61,7 +66,7 @@ Print Assumptions dv_lower_bound.
 Theorem dv_converges_clean_start : forall hist n evs,
   let S := run [] hist in
   forallb is_growth hist = true -> settled (topo_of S) = true ->
-  (maxdist (topo_of S) <= n)%nat -> nrounds (topo_of S) n evs ->
+  (maxdist (topo_of S) <= n)%nat -> arounds (topo_of S) n S evs ->
   converged (run S evs) = true.
 Proof. exact converges_clean_start. Qed.
 Print Assumptions dv_converges_clean_start.
@@ -71,16 +76,28 @@ Print Assumptions dv_converges_clean_start.
    shortest path, unreachable and phantom destinations withdrawn), and further fetches keep them *)
 Theorem dv_self_stabilises : forall S n evs,
   net_ok S -> settled (topo_of S) = true ->
-  (N.to_nat INF + maxdist (topo_of S) <= n)%nat -> nrounds (topo_of S) n evs ->
+  (N.to_nat INF + maxdist (topo_of S) <= n)%nat -> arounds (topo_of S) n S evs ->
   converged (run S evs) = true.
 Proof. exact self_stabilises_converged. Qed.
 Print Assumptions dv_self_stabilises.
+
+(* rounds of atomic fetches (the decidable Spec.is_round) are rounds; so the above holds for them *)
+Theorem sync_rounds_are_rounds : forall g n evs, nrounds g n evs -> forall S, arounds g n S evs.
+Proof. exact nrounds_arounds. Qed.
+Print Assumptions sync_rounds_are_rounds.
+
+Theorem dv_self_stabilises_sync : forall S n evs,
+  net_ok S -> settled (topo_of S) = true ->
+  (N.to_nat INF + maxdist (topo_of S) <= n)%nat -> nrounds (topo_of S) n evs ->
+  converged (run S evs) = true.
+Proof. exact (fun S n evs Hok Hs Hn Hr => self_stabilises_converged S n evs Hok Hs Hn (nrounds_arounds _ n evs Hr S)). Qed.
+Print Assumptions dv_self_stabilises_sync.
 
 (* re-convergence after any link or router loss: the same from the state left by any history *)
 Theorem dv_reconverges : forall hist n evs,
   let S := run [] hist in
   settled (topo_of S) = true ->
-  (N.to_nat INF + maxdist (topo_of S) <= n)%nat -> nrounds (topo_of S) n evs ->
+  (N.to_nat INF + maxdist (topo_of S) <= n)%nat -> arounds (topo_of S) n S evs ->
   converged (run S evs) = true.
 Proof. exact reconverges_after_any_history. Qed.
 Print Assumptions dv_reconverges.
